@@ -34,8 +34,8 @@ def key_of(v):
 
 def main(ck):
     tree = cy.Tree('C45')
-    nmods = ck.pick(2, 8)
-    nfuncs = ck.pick(56, 64)
+    nmods = ck.pick(1, 6)
+    nfuncs = ck.pick(60, 64)
     depths = ck.pick([1, 2, 3, 4], [1, 2, 3, 4, 5, 6])
     gens = []
     for mi in range(nmods):
@@ -118,9 +118,7 @@ def main(ck):
         for k in total:
             total[k] += done.get(k, 0)
         by_cell['%s/%s' % (bname, obs)] = by_cell.get('%s/%s' % (bname, obs), 0) + done['runs']
-        if obs == 'profile' or (obs == 'trace' and bname == 'linetrace'):
-            pass
-        if obs == BUILDS[bname][2][0]:
+        if obs != 'cprofile':
             for k, v in done['exit_kinds'].items():
                 exit_kinds[k] = exit_kinds.get(k, 0) + v
             for k, v in done['templates_activated'].items():
@@ -162,3 +160,57 @@ def main(ck):
         assumptions=['CPython 3.12.1: Cython uses the legacy tstate->c_profilefunc/c_tracefunc path (sys.monitoring only on 3.13+)',
                      "CPython's exact event sequence (exception events, c_call events) is not compared",
                      'nogil functions are expected to emit events only with -DCYTHON_TRACE_NOGIL=1'])
+
+
+def replay(ck, data):
+    """Re-run the (module, root, depth, observer, build) of a witness: the module is regenerated from the recorded seed."""
+    import random
+    w = data.get('witness', data)
+    run = w.get('run')
+    if not run:
+        print(json.dumps(w, indent=1)[:3000])
+        return 2
+    seed, tier = data.get('seed', 0), data.get('tier', 'quick')
+    nfuncs = 60 if tier == 'quick' else 64
+    nmods = 1 if tier == 'quick' else 6
+    gens = []
+    for mi in range(nmods):
+        g = gen.ModuleGen(random.Random('%s:%d:%s' % ('C45', seed, 'mod%d' % mi)), 'c45m%d' % mi, nfuncs, 'c45py')
+        g.py_base = 5000 + 200 * mi
+        gens.append(g)
+    emitted = {g.modname: g.emit('@@HEADER@@') for g in gens}
+    pysrc, pytable = gen.gen_pymodule(gens)
+    g = [x for x in gens if x.modname == run['module']][0]
+    bname, obs = w['build'], run['observer']
+    header, cflags, _ = BUILDS[bname]
+    tree = cy.Tree('C45r')
+    bd = tree.subdir('b')
+    open(os.path.join(bd, 'c45log.pxd'), 'w').write(gen.LOG_PXD)
+    open(os.path.join(bd, 'c45py.py'), 'w').write(pysrc)
+    d, info = tree.build_sources({g.modname: emitted[g.modname][0].replace('@@HEADER@@', header), 'c45log': gen.LOG_PYX},
+                                 subdir='b', ext='.pyx', cflags=cflags)
+    if not all(i['ok'] for i in info.values()):
+        print('build failed', {n: i['errors'][-800:] for n, i in info.items() if not i['ok']})
+        return 2
+    mtable = dict(emitted[g.modname][1])
+    mtable.update(pytable)
+    traced = [fid for fid, t in mtable.items() if (t['kind'] != 'nogil' or bname == 'both')]
+    spec = {'builddir': d, 'table': mtable, 'depths': [run['d']], 'observers': [obs], 'out': os.path.join(tree.work, 'o.jsonl'),
+            'modules': [{'name': g.modname, 'site_owner': g.site_owner, 'roots': [{'name': run['root']}],
+                         'traced_profile': traced, 'traced_trace': traced}]}
+    sp = os.path.join(tree.work, 'spec.json')
+    json.dump(spec, open(sp, 'w'))
+    r = core.run([core.PY, '-m', 'props.C45_driver', sp], env=tree.env(d), timeout=300)
+    n = 0
+    if os.path.exists(spec['out']):
+        for ln in open(spec['out']):
+            rec = json.loads(ln)
+            if not rec.get('done'):
+                n += 1
+                print('violation', key_of(rec), json.dumps({k: rec[k] for k in rec if k != 'run'}))
+    print((r.err or '')[-1500:])
+    if n:
+        print('VIOLATION property=C45 replay=<replayed>')
+        return 1
+    print('replay: no violation observed now')
+    return 0
